@@ -275,6 +275,7 @@ fn check(prop: &str, tier: &str) -> i32 {
             rep.assumptions.push("failed-commit-then-drop stop mode is enumerated under C08 with the same recovery oracle".into());
             rep.finish()
         }
+        "C20" => contractx::run(tier),
         "C07" => {
             let mut rep = Report::new(prop, tier, "model_checking");
             rep.cov("rule", json!("(a) every sequence of whole transactions, ephemeral/persistent savepoint create, drop, delete, restore followed by commit or abort (also with Durability::None), and reopen up to the depth bound; the model predicts every result from the public documentation (InvalidSavepoint / ImmediateDurabilityRequired rules, restored contents, invalidation of later savepoints, listings across reopen) and page accounting + drain must hold; (b) crash enumeration (engine of C01) over savepoint histories: persistent savepoints must be listed and restore to their captured tables after every crash state"));
